@@ -213,6 +213,9 @@ func (x *run) finalSweeps() {
 func (x *run) step(op *Op) {
 	w, cfg := x.w, x.cfg
 	x.st["op:"+op.Kind]++
+	if strings.Contains(op.Name, "preceded in the same transaction") {
+		x.st["op:next-two-requests-in-one-transaction"]++
+	}
 	wasUnlocked := w.Unlocked()
 
 	// C08: sometimes run an issuing op in a transaction that is rolled back first
@@ -302,6 +305,12 @@ func okOr(err error) string {
 // c05After: access battery in locked states, passphrase battery after changes.
 func (x *run) c05After(op *Op, err error, wasUnlocked bool) {
 	w := x.w
+	if op.Kind == "restart" {
+		w.Handles = nil // objects of the closed manager
+	}
+	if w.Unlocked() && (op.Kind == "unlock" || w.R.Intn(4) == 0) {
+		w.CollectHandles(x.st)
+	}
 	if !w.Unlocked() {
 		max := 5
 		if op.Kind == "lock" || op.Kind == "restart" || op.Kind == "unlock-wrong" {
